@@ -90,6 +90,29 @@ pub fn bytes_case(ctx: &mut Ctx, rng: &mut Rng) {
     if kind == 7 {
         text = text.chars().map(|c| if (c as u32) < 0x80 { c } else { 'e' }).collect();
     }
+    // single-byte text whose bytes happen to be well-formed UTF-8 as a whole (every non-ASCII
+    // character replaced by a pair / triple such as "Ã©" = C3 A9, "Â©" = C2 A9, "â‚¬" = E2 82 AC):
+    // the declared encoding must still decide
+    let lookalike = (kind == 4 || kind == 5) && rng.chance(1, 3);
+    if lookalike {
+        let mut t = String::new();
+        for c in text.chars() {
+            if (c as u32) < 0x80 {
+                t.push(c);
+            } else {
+                t.push_str(*rng.pick(&["Ã©", "Â©", "Ã¤", "Â°"]));
+                if kind == 5 && rng.chance(1, 3) {
+                    t.push_str("â‚¬");
+                }
+            }
+        }
+        if !t.chars().any(|c| (c as u32) >= 0x80) {
+            // make sure there is at least one such sequence in character data
+            t = t.replacen("</", "Ã©</", 1);
+        }
+        text = t;
+        ctx.sink.stat("bytes.latin-utf8-lookalike");
+    }
     let bytes: Vec<u8> = match kind {
         0 | 1 | 6 => {
             if kind == 1 && rng.chance(1, 2) {
@@ -154,7 +177,7 @@ pub fn bytes_case(ctx: &mut Ctx, rng: &mut Rng) {
                     ctx.sink.emit(format!("build bytes {} {}", text.len(), dump.words), resp);
                 }
                 ctx.sink.stat("bytes.equal");
-                if kind != 5 && kind != 7 {
+                if kind != 5 && kind != 7 && !lookalike {
                     let mut c02 = BTreeSet::new();
                     diff(&r.top, &a2, &mut c02);
                     for c in c02 {
